@@ -317,6 +317,7 @@ func (sc *scenario) container(ev *event) tg.UpdatesClass {
 	}
 	if ev.NoiseCh != 0 {
 		u.Updates = append(u.Updates, &tg.UpdateReadChannelInbox{ChannelID: ev.NoiseCh, MaxID: 1, Pts: ev.NoisePts})
+		chans[ev.NoiseCh] = true // its chat (and access hash) travels with it, as for every channel update
 	}
 	if !ev.NoEnts {
 		for id := range users {
